@@ -66,6 +66,8 @@ type Output struct {
 	Faults      []string      `json:"faults"`
 	Files       []string      `json:"contract_files"`
 	InferredPure []string     `json:"inferred_pure"`
+	Swept       int           `json:"swept_functions"`
+	SweepErrors []string      `json:"sweep_errors"`
 }
 
 func main() {
@@ -534,6 +536,11 @@ func gen(args []string) {
 			continue
 		}
 		fns := v.findFunc(fc.Pkg, fc.Key)
+		if len(fns) == 0 && fc.Trusted {
+			// a trusted contract of a package that is not loaded with bodies: nothing to verify here
+			res.TrustedFns = append(res.TrustedFns, k)
+			continue
+		}
 		if len(fns) == 0 {
 			res.Faults = append(res.Faults, fmt.Sprintf("function under contract not found: %s (%s)", k, fc.Src))
 			continue
@@ -609,6 +616,10 @@ func gen(args []string) {
 			}
 			sort.Slice(fns, func(i, j int) bool { return fns[i].String() < fns[j].String() })
 			for _, fn := range fns {
+				if !v.touchesGuarded(fn) {
+					continue // no instruction of this function addresses a guarded field
+				}
+				res.Swept++
 				em := NewEmitter()
 				fc := v.contractFor(fn)
 				fx, err := v.verifyFunc(fn, sweepContract(fc), em, true)
@@ -616,11 +627,12 @@ func gen(args []string) {
 				if err != nil {
 					rep.Error = err.Error()
 					res.Functions = append(res.Functions, rep)
+					res.SweepErrors = append(res.SweepErrors, rep.Func+": "+rep.Error)
 					continue
 				}
 				prelude := em.Prelude()
 				for _, ob := range fx.obls {
-					if ob.Kind != "guard" && ob.Kind != "unlock" && ob.Kind != "relock" {
+					if ob.Kind != "guard" && ob.Kind != "unlock" && ob.Kind != "relock" && !(ob.Kind == "pre@call" && strings.Contains(ob.Desc, "held(")) {
 						continue
 					}
 					seq++
@@ -721,4 +733,35 @@ func dump(args []string) {
 			}
 		}
 	}
+}
+
+// touchesGuarded: does the function contain a FieldAddr/Field of a field declared guarded_by?
+func (v *Verifier) touchesGuarded(fn *ssa.Function) bool {
+	for _, b := range fn.Blocks {
+		for _, in := range b.Instrs {
+			fa, ok := in.(*ssa.FieldAddr)
+			if !ok {
+				continue
+			}
+			pt, ok := fa.X.Type().Underlying().(*types.Pointer)
+			if !ok {
+				continue
+			}
+			ts := v.contracts.Types[typeKey(pt.Elem())]
+			if ts == nil || ts.GuardedBy == "" {
+				continue
+			}
+			st, ok := pt.Elem().Underlying().(*types.Struct)
+			if !ok {
+				continue
+			}
+			name := st.Field(fa.Field).Name()
+			for _, g := range ts.Guarded {
+				if g == name {
+					return true
+				}
+			}
+		}
+	}
+	return false
 }
